@@ -317,7 +317,7 @@ func TestC16(t *testing.T) {
 		tv = len(results)
 	}
 	st.Set("traces_validated_against_impl", tv)
-	st.Set("rule", "requests built from per-field boundary domains (names: existing / unknown / wrong kind / empty / malformed / deleted; integers: min,-1,0,1,max; durations: absent, negative, 0, 1 ns, 10 min, max, min; nested messages absent / empty; ack ids malformed; masks known / unknown / repeated / immutable) on every modelled RPC, called in-process on the real handlers with recover; quick = 900 sampled requests, thorough = the full product; distinct = distinct requests")
+	st.Set("rule", "requests built from per-field boundary domains (names: existing / unknown / wrong kind / empty / malformed / deleted; integers: min,-1,0,1,max; durations: absent, negative, 0, 1 ns, 10 min, max, min; nested messages absent / empty; ack ids malformed; masks known / unknown / repeated / immutable) on every modelled RPC, called in-process on the real handlers with recover; quick = 900 sampled requests, thorough = the full product; distinct = distinct requests; a fixed tail of data-plane requests on a dead-letter topology and of requests answered OK that make a maintenance round fail (no transaction may stay open); push subscriptions with boundary retry policies and endpoint strings of every kind, the pusher then run with the stored string in a child process")
 	st.Summary = fmt.Sprintf("requests=%d crashes=%d", len(results), len(crashed))
 }
 
@@ -699,7 +699,7 @@ func TestC12(t *testing.T) {
 	}
 	st.Set("evaluations", st.Get("requests")+st.Get("create_races"))
 	st.Set("traces_validated_against_impl", st.Get("histories"))
-	st.Set("rule", "random histories of create / delete / re-create / get of topics, subscriptions and snapshots over projects p, P, p1, p_, p%, pé (case, prefix, LIKE wildcards, unicode) checked against a reference registry, followed by List walks of every project x kind x page size {1,2,3,100,0,-1}; concurrent creates of one name; every request also replayed through the Lean API model; distinct = distinct histories")
+	st.Set("rule", "random histories of create / delete / re-create / get of topics, subscriptions and snapshots over projects p, P, p1, p_, p%, pé (case, prefix, LIKE wildcards, unicode) checked against a reference registry, followed by List walks of every project x kind x page size {1,2,3,100,0,-1}; concurrent creates of one name; every request also replayed through the Lean API model; distinct = distinct histories; ListTopicSubscriptions walks of every topic name against the registry of which incarnation of a name a subscription is attached to (a topic deleted and made again with subscriptions before and after)")
 	st.Summary = fmt.Sprintf("histories=%d requests=%d list_walks=%d races=%d", st.Get("histories"), st.Get("requests"), st.Get("list_walks"), st.Get("create_races"))
 }
 
